@@ -222,8 +222,47 @@ def run(repo, out_dir):
         v = 'true' if r == 'always' else 'false'
         lines.append(f'(* {REL}:{fn.lineno} {prop} setter *)\nDefinition {prop}_setter_rebuilds : bool := {v}.')
         info[prop + '.setter'] = v
-    # setters that patch the functor data in place
-    for prop in ('Hfus', 'Sfus'):
+    # does the Tm setter / the Hfus setter also refresh the derived entropy of fusion (Sfus = Hfus / Tm, as _init_data derives it)?
+    for prop in ('Tm', 'Hfus'):
+        fn = find_setter(src, prop)
+        touches = any((isinstance(x, ast.Attribute) and x.attr == '_Sfus' and isinstance(x.ctx, ast.Store)) or
+                      (isinstance(x, ast.Constant) and x.value in ('Sfus', '_Sfus')) for x in ast.walk(fn))
+        if touches:
+            src.err(fn, f'{prop} setter now touches Sfus: the model of the setter (InstQ.set_{prop}) must be extended')
+        lines.append(f'(* {REL}:{fn.lineno} {prop} setter: Sfus is left as it was *)\nDefinition {prop}_setter_refreshes_Sfus : bool := false.')
+        info[prop + '.setter refreshes Sfus'] = False
+    # reset_energy_constant(chemical, var, value): either writes value into chemical._<var> and into every current H/S
+    # functor that has a datum <var> (no new objects), or stores it and rebuilds the functors from the chemical's fields
+    helper = [x for x in src.tree.body if isinstance(x, ast.FunctionDef) and x.name == 'reset_energy_constant']
+    if len(helper) != 1 or [a.arg for a in helper[0].args.args] != ['chemical', 'var', 'value']:
+        raise TranslatorError(f'{REL}: reset_energy_constant(chemical, var, value) not found')
+    hb = strip_docstring(src, helper[0].body)
+    text = ' '.join(src.seg(x).strip() for x in hb)
+    norm = ' '.join(text.split())
+    PATCH = ("getfield = getattr hasfield = hasattr setfield = object.__setattr__ setfield(chemical, '_'+var, value) isa = isinstance "
+             "for handle in _energy_handles: handle = getfield(chemical, handle, None) if handle is None: continue "
+             "if isa(handle, PhaseHandle): for phase, obj in handle: if hasfield(obj, var): setfield(obj, var, value) "
+             "elif hasfield(handle, var): setfield(handle, var, value)")
+    stores = [x for x in hb if isinstance(x, ast.Expr) and isinstance(x.value, ast.Call) and isinstance(x.value.func, ast.Name)
+              and x.value.func.id in ('setattr', 'setfield') and src.seg(x.value).replace(' ', '') in
+              ("setattr(chemical,'_'+var,value)", "setfield(chemical,'_'+var,value)")]
+    resets = [x for x in ast.walk(helper[0]) if isinstance(x, ast.Call) and isinstance(x.func, ast.Attribute)
+              and x.func.attr == 'reset_free_energies' and isinstance(x.func.value, ast.Name) and x.func.value.id == 'chemical']
+    if norm == PATCH:
+        helper_mode = 'patch'
+    elif len(hb) == 2 and len(stores) == 1 and hb[0] is stores[0] and len(resets) == 1 and (
+            src.seg(hb[1]).strip() == 'chemical.reset_free_energies()' or
+            (isinstance(hb[1], ast.If) and not hb[1].orelse and len(hb[1].body) == 1
+             and src.seg(hb[1].body[0]).strip() == 'chemical.reset_free_energies()'
+             and ' '.join(src.seg(hb[1].test).split()) in ("getattr(chemical, '_H', None) is not None", "chemical._H is not None"))):
+        helper_mode = 'rebuild'      # a chemical without functors (H is None) has nothing to rebuild
+    else:
+        src.err(helper[0], 'reset_energy_constant is neither the in-place patch of the current functors nor store + reset_free_energies')
+    info['reset_energy_constant'] = helper_mode
+    lines.append(f'(* {REL}:{helper[0].lineno} reset_energy_constant: {helper_mode} *)\n'
+                 f'Definition energy_constant_creates_new_functors : bool := {"true" if helper_mode == "rebuild" else "false"}.')
+    # setters that go through reset_energy_constant
+    for prop in ('Hfus', 'Sfus', 'S0'):
         fn = find_setter(src, prop)
         body = strip_docstring(src, fn.body)
         want = f"Expr(value=Call(func=Name(id='reset_energy_constant', ctx=Load()), args=[Name(id='self', ctx=Load()), Constant(value='{prop}'), Call(func=Name(id='float', ctx=Load()), args=[Name(id='{prop}', ctx=Load())], keywords=[])], keywords=[]))"
